@@ -693,7 +693,7 @@ func c09WithUndeclQuirk(d *adoc.Doc) *adoc.Doc {
 }
 
 func init() {
-	Registry["C09"] = Prop{"exploration", C09}
+	Registry["C09"] = Prop{"fault_enumeration", C09}
 	replayers["C09"] = func(raw json.RawMessage) string {
 		var cs c09Case
 		json.Unmarshal(raw, &cs)
